@@ -489,7 +489,7 @@ struct Run {
     eval: bool,
 }
 
-const PER_KIND: u64 = 3;
+const PER_KIND: u64 = 2;
 
 impl Run {
     fn ask(&mut self, op: &str, w: &str, real: String) {
@@ -767,6 +767,9 @@ impl Run {
                         json!({"named": wire::term(t), "back_to_index": again, "expected": want}));
                 }
                 // binders are numbered 0,1,2,… in pre-order
+                if again != want {
+                    return;
+                }
                 let mut k = 0isize;
                 let mut ok = true;
                 walk(t, 0, &mut |is_b, _, n: &Name| {
